@@ -287,7 +287,7 @@ def rttInflation (s : St F) : F :=
 
 /-- `sane_observed`: the outlier-clamped throughput sample -/
 def saneObserved (target observed : Nat) : Nat :=
-  let baseline : F := ofNat (if target < INITIAL_TARGET_BPS then INITIAL_TARGET_BPS else target)
+  let baseline : F := ofNat (max target INITIAL_TARGET_BPS)
   toU64 (fmin (ofNat observed : F) (mul cOutlier baseline))
 
 /-- the seed assigned on the first non-bootstrap tick -/
